@@ -13,7 +13,7 @@
 (* The member set is a Go slice: `arr` is its backing array (stale values stay  *)
 (* behind the length `n`), SRem shifts in place, append reallocates when the    *)
 (* capacity is exhausted.  Every mutex-protected section is one atomic step:    *)
-(*   request t:  sadd  -> setst -> verdict -> (held | drop: Dec ; response walk: Dec) *)
+(*   request t:  sadd  -> setst (+verdict) -> (held | drop: Dec ; response walk: Dec) *)
 (*   Dec:        d1 read the status map / d2 SRem / d3 delete from the map      *)
 (*   response and proxy error of a held transaction are separate `enders` that  *)
 (*   may run concurrently (Response || OnRequestDrop)                           *)
@@ -87,69 +87,67 @@ GcKeepsOld == IF gpc # "idle" /\ galias THEN gsnap' = arr /\ galias' = FALSE ELS
 Full == IF Variant = "ge_to_gt" THEN n > Max ELSE n >= Max
 
 -------------------------------------------------------------------------------
-\* a transaction's request
+\* a transaction's request.  Steps that touch only the transaction's own entries are folded into
+\* the neighbouring critical section (they commute with everything another goroutine can do).
 
-Begin(t, e) ==
-    /\ pc[t] = "idle"
-    /\ pc' = [pc EXCEPT ![t] = "sadd"] /\ early' = [early EXCEPT ![t] = e]
-    /\ reg' = [reg EXCEPT ![t] = TRUE]                 \* Limiter: GetQuota(quota, request id)
-    /\ last' = [ev |-> "begin", t |-> t]
-    /\ UNCHANGED <<now, arr, n, areq, amem, epc, efound, emem, gpc, gsnap, glen, gi, galias, gitem, gcDue>>
+\* what follows the end of ender e of t: the response paths drop the association (OnResponseFinish),
+\* a short-circuit continues with its response walk (QuotaProcessorDec), the walk ends the transaction
+AfterEnder(t, e, ep) ==
+    [ep EXCEPT ![t][e] = "done", ![t]["walk"] = IF e = "drop" THEN "d1" ELSE ep[t]["walk"]]
+RegAfter(t, e) == IF e \in {"resp", "walk"} /\ Variant # "no_unregister" THEN [reg EXCEPT ![t] = FALSE] ELSE reg
+PcAfter(t, e) == IF e = "walk" THEN [pc EXCEPT ![t] = "ended"] ELSE pc
 
-\* Inc: AtomicSAddWithMaxValuesAllowed
-SAdd(t) ==
+\* Limiter: GetQuota(quota, request id) ; Inc: AtomicSAddWithMaxValuesAllowed.
+\* A full set is the rate-limit verdict: GenerateResponse -> OnRequestDrop (pops the association), then the walk.
+SAdd(t, e) ==
     LET m == [t |-> t, exp |-> now + Expiry] IN
-    /\ pc[t] = "sadd"
-    /\ last' = [ev |-> "sadd", t |-> t]
+    /\ pc[t] = "idle"
     /\ IF Full
-       THEN /\ pc' = [pc EXCEPT ![t] = "verdict"]
-            /\ UNCHANGED <<arr, n, amem, gsnap, galias>>
+       THEN /\ pc' = [pc EXCEPT ![t] = "ending"]
+            /\ reg' = reg                                   \* registered by GetQuota, popped by OnRequestDrop
+            /\ epc' = [epc EXCEPT ![t]["drop"] = IF Variant # "no_release" THEN "d1" ELSE "done",
+                                  ![t]["walk"] = IF Variant # "no_release" THEN "idle" ELSE "d1"]
+            /\ last' = [ev |-> "sadd", t |-> t, out |-> "refuse"]
+            /\ UNCHANGED <<arr, n, amem, early, gsnap, galias>>
        ELSE /\ arr' = AppendArr(m) /\ n' = n + 1
             /\ amem' = [amem EXCEPT ![t] = m]          \* (the member key is a local of Inc until setst)
+            /\ early' = [early EXCEPT ![t] = e]
+            /\ reg' = [reg EXCEPT ![t] = TRUE]
             /\ pc' = [pc EXCEPT ![t] = "setst"]
+            /\ last' = [ev |-> "sadd", t |-> t, out |-> "-"]
             /\ IF Realloc THEN GcKeepsOld ELSE UNCHANGED <<gsnap, galias>>
-    /\ UNCHANGED <<now, areq, reg, early, epc, efound, emem, gpc, glen, gi, gitem, gcDue>>
+            /\ UNCHANGED epc
+    /\ UNCHANGED <<now, areq, efound, emem, gpc, glen, gi, gitem, gcDue>>
 
-\* Inc: setReqStatus(reqAllowed) + member
+\* Inc: setReqStatus(reqAllowed) + member ; Allowed: the status check.
+\* Answered early by a later processor: GenerateResponse -> OnRequestDrop, then the walk.
 SetSt(t) ==
+    LET o == IF early[t] THEN "early" ELSE "admit" IN
     /\ pc[t] = "setst"
     /\ areq' = [areq EXCEPT ![t] = "allowed"]
-    /\ pc' = [pc EXCEPT ![t] = "verdict"]
-    /\ last' = [ev |-> "setst", t |-> t]
-    /\ UNCHANGED <<now, arr, n, amem, reg, early, epc, efound, emem, gpc, gsnap, glen, gi, galias, gitem, gcDue>>
-
-\* Allowed (the status check; the retried Inc of a refused request is folded into the refusal)
-Verdict(t) ==
-    LET ok == areq[t] = "allowed"
-        o  == IF ~ok THEN "refuse" ELSE IF early[t] THEN "early" ELSE "admit" IN
-    /\ pc[t] = "verdict"
     /\ early' = [early EXCEPT ![t] = FALSE]
     /\ pc' = [pc EXCEPT ![t] = IF o = "admit" THEN "held" ELSE "ending"]
-    \* refused / answered early: GenerateResponse -> OnRequestDrop, then the response walk
-    /\ epc' = IF o = "admit" THEN epc ELSE [epc EXCEPT ![t]["drop"] = "start"]
-    /\ last' = [ev |-> "verdict", t |-> t, out |-> o]
-    /\ UNCHANGED <<now, arr, n, areq, amem, reg, efound, emem, gpc, gsnap, glen, gi, galias, gitem, gcDue>>
+    /\ IF o = "admit" THEN UNCHANGED <<epc, reg>>
+       ELSE /\ reg' = [reg EXCEPT ![t] = FALSE]
+            /\ epc' = [epc EXCEPT ![t]["drop"] = IF Variant # "no_release" THEN "d1" ELSE "done",
+                                  ![t]["walk"] = IF Variant # "no_release" THEN "idle" ELSE "d1"]
+    /\ last' = [ev |-> "setst", t |-> t, out |-> o]
+    /\ UNCHANGED <<now, arr, n, amem, efound, emem, gpc, gsnap, glen, gi, galias, gitem, gcDue>>
 
 -------------------------------------------------------------------------------
 \* the ways a slot is given back.  Ender e of transaction t:
 \*   "drop"  OnRequestDrop after an early / refusing response  (then "walk" follows)
 \*   "walk"  the response walk of that short-circuit: QuotaProcessorDec, OnResponseFinish
 \*   "resp"  the provider's response: QuotaProcessorDec, OnResponseFinish
-\*   "err"   the proxy reported the transaction failed: OnRequestDrop
+\*   "err"   the proxy reported the transaction failed: OnRequestDrop (pops the association first
+\*           and releases only if there was one)
 
 StartEnd(t, e) ==
     /\ e \in {"resp", "err"} /\ pc[t] = "held" /\ epc[t][e] = "idle"
-    /\ epc' = [epc EXCEPT ![t][e] = "start"]
     /\ last' = [ev |-> "end-start", t |-> t, e |-> e]
-    /\ UNCHANGED <<now, arr, n, areq, amem, reg, pc, early, efound, emem, gpc, gsnap, glen, gi, galias, gitem, gcDue>>
-
-\* OnRequestDrop pops the association first and releases only if there was one
-Pop(t, e) ==
-    /\ epc[t][e] = "start"
-    /\ last' = [ev |-> "pop", t |-> t, e |-> e]
-    /\ IF e \in {"err", "drop"}
+    /\ IF e = "err"
        THEN /\ reg' = [reg EXCEPT ![t] = FALSE]
-            /\ epc' = [epc EXCEPT ![t][e] = IF reg[t] /\ Variant # "no_release" THEN "d1" ELSE "fin"]
+            /\ epc' = [epc EXCEPT ![t][e] = IF reg[t] /\ Variant # "no_release" THEN "d1" ELSE "done"]
        ELSE /\ UNCHANGED reg
             /\ epc' = [epc EXCEPT ![t][e] = "d1"]
     /\ UNCHANGED <<now, arr, n, areq, amem, pc, early, efound, emem, gpc, gsnap, glen, gi, galias, gitem, gcDue>>
@@ -157,11 +155,15 @@ Pop(t, e) ==
 \* Dec step 1: read the status map
 D1(t, e) ==
     /\ epc[t][e] = "d1"
-    /\ efound' = [efound EXCEPT ![t][e] = areq[t] # "none"]
-    /\ emem' = [emem EXCEPT ![t][e] = amem[t]]
-    /\ epc' = [epc EXCEPT ![t][e] = IF areq[t] # "none" THEN "d2" ELSE "fin"]
     /\ last' = [ev |-> "d1", t |-> t, e |-> e]
-    /\ UNCHANGED <<now, arr, n, areq, amem, reg, pc, early, gpc, gsnap, glen, gi, galias, gitem, gcDue>>
+    /\ IF areq[t] # "none"
+       THEN /\ efound' = [efound EXCEPT ![t][e] = TRUE]
+            /\ emem' = [emem EXCEPT ![t][e] = amem[t]]
+            /\ epc' = [epc EXCEPT ![t][e] = "d2"]
+            /\ UNCHANGED <<reg, pc>>
+       ELSE /\ epc' = AfterEnder(t, e, epc) /\ reg' = RegAfter(t, e) /\ pc' = PcAfter(t, e)
+            /\ UNCHANGED <<efound, emem>>
+    /\ UNCHANGED <<now, arr, n, areq, amem, early, gpc, gsnap, glen, gi, galias, gitem, gcDue>>
 
 \* Dec step 2: SRem of the member read in step 1 (if the status is still `allowed`)
 D2(t, e) ==
@@ -171,25 +173,15 @@ D2(t, e) ==
     /\ epc' = [epc EXCEPT ![t][e] = "d3"]
     /\ UNCHANGED <<now, areq, amem, reg, pc, early, efound, emem, gpc, gsnap, glen, gi, galias, gitem, gcDue>>
 
-\* Dec step 3: delete from the status map
+\* Dec step 3: delete from the status map; the ender is finished
 D3(t, e) ==
     /\ epc[t][e] = "d3"
     /\ areq' = [areq EXCEPT ![t] = "none"]
     /\ amem' = [amem EXCEPT ![t] = Nil]
     /\ efound' = [efound EXCEPT ![t][e] = FALSE] /\ emem' = [emem EXCEPT ![t][e] = Nil]   \* (locals die)
-    /\ epc' = [epc EXCEPT ![t][e] = "fin"]
+    /\ epc' = AfterEnder(t, e, epc) /\ reg' = RegAfter(t, e) /\ pc' = PcAfter(t, e)
     /\ last' = [ev |-> "d3", t |-> t, e |-> e]
-    /\ UNCHANGED <<now, arr, n, reg, pc, early, gpc, gsnap, glen, gi, galias, gitem, gcDue>>
-
-\* end of an ender: the response paths drop the association; a short-circuit continues with its walk
-Fin(t, e) ==
-    /\ epc[t][e] = "fin"
-    /\ reg' = IF e \in {"resp", "walk"} /\ Variant # "no_unregister" THEN [reg EXCEPT ![t] = FALSE] ELSE reg
-    /\ epc' = [epc EXCEPT ![t][e] = "done",
-                          ![t]["walk"] = IF e = "drop" THEN "start" ELSE epc[t]["walk"]]
-    /\ pc' = IF e = "walk" THEN [pc EXCEPT ![t] = "ended"] ELSE pc
-    /\ last' = [ev |-> "fin", t |-> t, e |-> e]
-    /\ UNCHANGED <<now, arr, n, areq, amem, early, efound, emem, gpc, gsnap, glen, gi, galias, gitem, gcDue>>
+    /\ UNCHANGED <<now, arr, n, early, gpc, gsnap, glen, gi, galias, gitem, gcDue>>
 
 -------------------------------------------------------------------------------
 \* the GC goroutine
@@ -235,9 +227,9 @@ Advance ==
 
 Next ==
     \/ Advance \/ G1 \/ G2 \/ G3
-    \/ \E t \in Txn : \/ \E e \in BOOLEAN : Begin(t, e)
-                      \/ SAdd(t) \/ SetSt(t) \/ Verdict(t)
-                      \/ \E e \in Enders : StartEnd(t, e) \/ Pop(t, e) \/ D1(t, e) \/ D2(t, e) \/ D3(t, e) \/ Fin(t, e)
+    \/ \E t \in Txn : \/ \E e \in BOOLEAN : SAdd(t, e)
+                      \/ SetSt(t)
+                      \/ \E e \in Enders : StartEnd(t, e) \/ D1(t, e) \/ D2(t, e) \/ D3(t, e)
 
 ISpec == Init /\ [][Next]_ivars
 
